@@ -12,10 +12,68 @@ CHECKS = {'exact', 'frame'}
 MINE = ('gc_incomplete', 'gc_overreach', 'config_touched', 'exception', 'unknown_object', 'refused_delete_mutated')
 
 
+def s3_gc_probe(ctx, rep):
+    """delete and clean over the S3-compatible adapter with listings spanning several pages (fake service, page size 3):
+    objects outside the chunk area, and everything a remaining snapshot needs, must be left alone."""
+    import asyncio, contextlib, io
+    from pathlib import Path
+    from harness import fakes_http as fk
+    from replicat.backends.s3c import S3Compatible
+    from replicat.repository import Repository
+    svc = fk.FakeS3('bkt', page_size=3, piece=64, max_requests=50000)
+    wd = Path(ctx.scratch) / 's3gc'
+    (wd / 'a').mkdir(parents=True)
+    (wd / 'b').mkdir(parents=True)
+    (wd / 'a' / 'f').write_bytes(ctx.rng.randbytes(700))
+    (wd / 'b' / 'g').write_bytes(ctx.rng.randbytes(300))
+    out = {}
+
+    async def go():
+        be = S3Compatible('bkt', key_id='AKIDEXAMPLE', access_key='secret', region='us-east-1', host='s3.example.test', scheme='http')
+        repo = Repository(be, concurrent=2, quiet=True, cache_directory=None)
+        await repo.init(settings={'encryption': None, 'chunking': {'min_length': 32, 'max_length': 64}, 'hashing': {'name': 'blake2b', 'length': 16}})
+        await be.upload('notes/readme.txt', b'outside the repository areas')
+        await be.upload('zz-archive/old.bin', b'also outside')
+        sa = await repo.snapshot(paths=[wd / 'a'])
+        sb = await repo.snapshot(paths=[wd / 'b'])
+        await be.upload('data/00/11/2233-445566', b'orphan')
+        before = dict(svc.objects)
+        await repo.delete_snapshots([sb.name], confirm=False)
+        await repo.clean()
+        out['before'], out['after'], out['sa'], out['sb'] = before, dict(svc.objects), sa, sb
+        r2 = Repository(be, concurrent=2, quiet=True, cache_directory=None)
+        await r2.unlock()
+        (wd / 'out').mkdir()
+        try:
+            res = await r2.restore(path=wd / 'out')
+            t = Path(wd / 'out', *Path(str((wd / 'a' / 'f').resolve())).parts[1:])
+            out['restored'] = t.is_file() and t.read_bytes() == (wd / 'a' / 'f').read_bytes()
+        except Exception as e:
+            out['restored'] = f'{type(e).__name__}: {str(e)[:80]}'
+        await be.close()
+
+    with fk.patched_async_client(svc.handler), fk.VirtualSleep(), contextlib.redirect_stdout(io.StringIO()), contextlib.redirect_stderr(io.StringIO()):
+        asyncio.run(go())
+    rep.case(('s3-gc-probe', len(out['before'])), nontrivial=True)
+    rep.count('s3_gc_probe_objects', len(out['before']))
+    gone = [k for k in out['before'] if k not in out['after']]
+    bad = [k for k in gone if not (k.startswith('data/') or k == out['sb'].location)]
+    if bad:
+        rep.violations.append({'what': f'delete + clean over S3 (listing in pages of 3) removed objects outside the chunk area or a remaining snapshot: {bad[:3]}',
+                               'signature': {'kind': 'gc_overreach', 'backend': 's3c'}, 'replay': {'probe': 's3_gc'}})
+    if out['restored'] is not True:
+        rep.violations.append({'what': f'after delete + clean over S3 the remaining snapshot does not restore: {out["restored"]}',
+                               'signature': {'kind': 'gc_overreach', 'backend': 's3c'}, 'replay': {'probe': 's3_gc'}})
+    if 'data/00/11/2233-445566' in out['after']:
+        rep.violations.append({'what': 'clean over S3 left an unreferenced chunk object', 'signature': {'kind': 'gc_incomplete', 'backend': 's3c'},
+                               'replay': {'probe': 's3_gc'}})
+
+
 def _run(ctx, n, nops, rep, concurrent=None):
     seeds = [ctx.rng.randint(0, 2 ** 31) for _ in range(n)]
     repo_hist.run_batch(seeds, ctx.scratch, rep, nops=nops, weights=WEIGHTS, checks=CHECKS,
                         concurrent=concurrent or ctx.rng.choice([1, 2, 4]), delay=0.001)
+    s3_gc_probe(ctx, rep)
     rep.violations[:] = [v for v in rep.violations if v['signature']['kind'] in MINE]
 
 
